@@ -753,48 +753,87 @@ func (rn *Runner) compileAndRun(mod string, results []*Result) {
 	if !anyDrive {
 		return
 	}
-	res := RunLimited(mod, env, 300*time.Second, WireMemKB, bin)
-	if res.TimedOut {
-		rn.internalf("driver binary timed out")
-		return
-	}
 	byDir := map[string]*Result{}
 	for _, r := range want {
 		byDir[r.Case.Dir] = r
 	}
-	var cur *Result
-	for _, line := range strings.Split(res.Stderr, "\n") {
-		if !strings.HasPrefix(line, "V|") {
-			if line != "" && cur != nil {
-				cur.Trace = append(cur.Trace, "? "+line)
+	// The driver runs every case in turn. A fatal error in generated code (stack overflow through a cleanup that
+	// calls itself, runaway output, a hang) takes the whole process down: the case that was running is marked,
+	// and a driver for the cases not yet run is built and run, a bounded number of times.
+	for round := 0; round < 6; round++ {
+		res := RunLimited(mod, env, 300*time.Second, WireMemKB, bin)
+		var cur *Result
+		for _, line := range strings.Split(res.Stderr, "\n") {
+			if !strings.HasPrefix(line, "V|") {
+				if line != "" && cur != nil && len(cur.Trace) < 200000 {
+					cur.Trace = append(cur.Trace, "? "+line)
+				}
+				continue
 			}
-			continue
-		}
-		line = line[2:]
-		if strings.HasPrefix(line, "CASE ") {
-			cur = byDir[strings.TrimPrefix(line, "CASE ")]
-			if cur != nil {
-				cur.Ran = true
+			line = line[2:]
+			if strings.HasPrefix(line, "CASE ") {
+				cur = byDir[strings.TrimPrefix(line, "CASE ")]
+				if cur != nil {
+					cur.Ran = true
+				}
+				continue
 			}
-			continue
-		}
-		if strings.HasPrefix(line, "PANIC ") {
-			if r := byDir[strings.TrimPrefix(line, "PANIC ")]; r != nil {
-				r.Panicked = true
+			if strings.HasPrefix(line, "PANIC ") {
+				if r := byDir[strings.TrimPrefix(line, "PANIC ")]; r != nil {
+					r.Panicked = true
+				}
+				continue
 			}
-			continue
-		}
-		if cur != nil {
-			cur.Trace = append(cur.Trace, line)
-			if strings.HasPrefix(line, "D") {
-				rn.mu.Lock()
-				rn.Scenarios++
-				rn.mu.Unlock()
+			if cur != nil && len(cur.Trace) < 200000 {
+				cur.Trace = append(cur.Trace, line)
+				if strings.HasPrefix(line, "D") {
+					rn.mu.Lock()
+					rn.Scenarios++
+					rn.mu.Unlock()
+				}
 			}
 		}
-	}
-	if res.Exit != 0 {
-		rn.internalf("driver binary exited %d: %s", res.Exit, tail(res.Stderr, 2000))
+		if res.Exit == 0 && !res.TimedOut && !res.Flooded {
+			break
+		}
+		if cur == nil {
+			rn.internalf("driver binary failed before the first case (exit %d, timed out %v): %s", res.Exit, res.TimedOut, tail(res.Stderr, 2000))
+			break
+		}
+		// cur was running when the process died
+		cur.Panicked = true
+		why := fmt.Sprintf("fatal: the driver process died in this case (exit %d, timed out %v, output flood %v)", res.Exit, res.TimedOut, res.Flooded)
+		if len(cur.Trace) > 400 {
+			cur.Trace = append(cur.Trace[:200:200], cur.Trace[len(cur.Trace)-200:]...)
+		}
+		cur.Trace = append(cur.Trace, "? "+why, "? "+tail(res.Stderr, 1500))
+		var rest []*Result
+		for _, r := range want {
+			if r.Case.Drive && !r.Ran {
+				rest = append(rest, r)
+			}
+		}
+		if len(rest) == 0 {
+			break
+		}
+		var sb strings.Builder
+		sb.WriteString("package main\n\nimport (\n")
+		for _, r := range rest {
+			fmt.Fprintf(&sb, "\t%s %q\n", r.Case.Dir, ModPath+"/"+r.Case.Dir)
+		}
+		sb.WriteString(")\n\nfunc run(name string, f func()) {\n\tdefer func() {\n\t\tif r := recover(); r != nil {\n\t\t\tprintln(\"V|PANIC\", name)\n\t\t}\n\t}()\n\tf()\n}\n\nfunc main() {\n")
+		for _, r := range rest {
+			fmt.Fprintf(&sb, "\trun(%q, %s.VerifDrive)\n", r.Case.Dir, r.Case.Dir)
+		}
+		sb.WriteString("}\n")
+		WriteFiles(mod, map[string]string{"zmain/main.go": sb.String()})
+		if b := Run(mod, env, 600*time.Second, "go", "build", "-o", bin, "./zmain"); b.Exit != 0 {
+			rn.internalf("rebuilding the driver for the remaining cases failed: %s", tail(b.Stderr, 1500))
+			break
+		}
+		if round == 5 {
+			rn.internalf("driver binary kept dying; %d cases not run", len(rest))
+		}
 	}
 	if rn.AlsoTagged {
 		rn.taggedRun(mod, env, want)
